@@ -48,38 +48,56 @@ ASSUMPTIONS = ["single process (MPI singleton, MPI_COMM_SELF), local tmpfs/POSIX
                "part B (valid programs under the sanitizer build) not included yet"]
 
 # ---------------------------------------------------------------------------------------------
-# Named exclusions: confirmed findings on the pinned tree, excluded from the CAMPAIGN so that it keeps
-# searching (counted in evidence as excluded_<name>); each one is still probed through its saved replay
-# in /verif/replays/C19, which runs WITHOUT exclusions.
-#   allow : failure keys the target counts instead of reporting (PNC_OPEN_ALLOW); used where the process survives
-#   skip  : input classes that are not given to the library at all (PNC_OPEN_SKIP, see open_target.h); used where the
-#           finding ends the process (crash), so counting is not possible
-#   allow_ub : UBSan sites given as (kind, file, statement text); resolved to the line numbers of the CURRENT tree at run
-#           time (resolve_ub_sites), so unrelated edits that shift lines neither hide nor resurrect them
-EXCLUSIONS = {
-    # R1: list nelems / attribute nelems / var ndims are used as allocation sizes and loop bounds without relating them to the
-    #     file size; hdr_fetch zero-fills past EOF instead of failing (60-byte file -> GiB allocations, thousands of fetches);
-    #     PNETCDF_RNDUP(ndefined, PNC_ARRAY_GROWBY) overflows int for ndefined > INT_MAX-63.
-    #     The resource excess is excused only as far as the count fields of the same input declare it (open_target.h).
-    "count_fields_trusted": {"excuse_declared": True,
-                             "allow_ub": [("signed-integer-overflow", "ncmpio_header_get.c", "alloc_size = PNETCDF_RNDUP(ncap->ndefined, PNC_ARRAY_GROWBY);")]},
-    # R1b: ncmpio_new_NC_var() does not check its NCI_Calloc(ndims, ..) results -> NULL store in hdr_get_NC_var
-    "var_ndims_alloc_unchecked": {"skip": {"ndims": (1 << 20) + 1}},
-    # R2: CDF-5 attribute nelems >= 2^60: nelems*xsz overflows (or is negative) in x_len_NC_attrV / hdr_get_NC_attrV ->
-    #     heap-buffer-overflow WRITE or NULL store in hdr_get_NC_attrV
-    "attr_nelems_overflow": {"skip": {"att_nelems": 1 << 60}},
-    # R3: CDF-5 numrecs / dimension length >= 2^63 are accepted as negative MPI_Offset -> FPE in ncmpio_NC_check_vlen,
-    #     negative dimension lengths / record size reported by the inquiry API
-    "int64_fields_negative": {"skip": {"neg64": 1}},
-    # R4: sizes / offsets derived from (positive) extreme dimension lengths, numrecs and begins are computed with signed
-    #     64-bit arithmetic before / without a range check
-    "size_offset_arith_overflow": {"allow_ub": [
+# UBSan sites of recorded findings, given as statement text (not line numbers: unrelated edits shift lines).  A UBSan problem
+# whose source line contains one of these statements gets sig["statement_class"] = <class>, which is what the known-findings
+# entry of that class matches; any other UBSan site has no class and is reported.
+UB_STATEMENT_CLASSES = {
+    # R4: sizes / offsets derived from (positive) extreme dimension lengths, numrecs and begins of a malformed header are
+    #     computed with signed 64-bit arithmetic before / without a range check
+    "size_offset_arith_overflow": [
         ("signed-integer-overflow", "ncmpio_var.c", "product *= varp->shape[i];"),
         ("signed-integer-overflow", "ncmpio_header_get.c", "+ ncp->vars.value[i]->len;"),
         ("signed-integer-overflow", "ncmpio_enddef.c", "prev_off = varp->begin + varp->len;"),
         ("signed-integer-overflow", "ncmpio_util.c", "*offset += start[0] * ncp->recsize;"),
-        ("signed-integer-overflow", "ncmpio_util.c", "*offset += varp->begin;")]},
+        ("signed-integer-overflow", "ncmpio_util.c", "*offset += varp->begin;")],
 }
+
+# ---------------------------------------------------------------------------------------------
+# Named exclusions: recorded findings of the tree under test, excluded from the CAMPAIGN so that it keeps searching
+# (counted in evidence as excluded_<name>); each one is still probed through its saved replay in /verif/replays/C19,
+# which runs WITHOUT exclusions, so a finding whose exclusion is deleted here is simply reported as a VIOLATION again
+# (by its replay and by the campaign) if it is still present.  DELETE AN ENTRY ONCE ITS FIX HAS LANDED.
+#   allow_ub : UBSan sites (kind, file, statement text) that the target counts instead of reporting (PNC_OPEN_ALLOW);
+#           resolved to the line numbers of the CURRENT tree at run time (resolve_ub_sites)
+#   allow : literal failure keys counted instead of reported; used where the process survives
+#   skip  : input classes that are not given to the library at all (PNC_OPEN_SKIP, see open_target.h); used where the
+#           finding ends the process (crash), so counting is not possible
+#   excuse_declared : resource excess is excused as far as the count fields of the same input declare it (open_target.h)
+EXCLUSIONS = {
+    # R4 (known finding, see UB_STATEMENT_CLASSES)
+    "size_offset_arith_overflow": {"allow_ub": UB_STATEMENT_CLASSES["size_offset_arith_overflow"]},
+}
+
+# Exclusions that were needed before the fixes R1, R1b, R2, R3 (work/c19/fixes/*.diff) landed.  Not active.  To run the
+# campaign on a tree that lacks one of these fixes: C19_EXTRA_EXCLUSIONS=name[,name...] (or move the entry back up).
+RETIRED_EXCLUSIONS = {
+    # R1: list nelems / attribute nelems / var ndims were used as allocation sizes and loop bounds without relating them to
+    #     the file size; hdr_fetch zero-filled past EOF instead of failing (60-byte file -> GiB allocations, thousands of
+    #     fetches); PNETCDF_RNDUP(ndefined, PNC_ARRAY_GROWBY) overflowed int for ndefined > INT_MAX-63
+    "count_fields_trusted": {"excuse_declared": True,
+                             "allow_ub": [("signed-integer-overflow", "ncmpio_header_get.c", "alloc_size = PNETCDF_RNDUP(ncap->ndefined, PNC_ARRAY_GROWBY);")]},
+    # R1b: ncmpio_new_NC_var() did not check its NCI_Calloc(ndims, ..) results -> NULL store in hdr_get_NC_var
+    "var_ndims_alloc_unchecked": {"skip": {"ndims": (1 << 20) + 1}},
+    # R2: CDF-5 attribute nelems >= 2^60: nelems*xsz overflowed (or was negative) in x_len_NC_attrV / hdr_get_NC_attrV ->
+    #     heap-buffer-overflow WRITE or NULL store in hdr_get_NC_attrV
+    "attr_nelems_overflow": {"skip": {"att_nelems": 1 << 60}},
+    # R3: CDF-5 numrecs / dimension length >= 2^63 were accepted as negative MPI_Offset -> FPE in ncmpio_NC_check_vlen,
+    #     negative dimension lengths / record size reported by the inquiry API
+    "int64_fields_negative": {"skip": {"neg64": 1}},
+}
+for _n in [x for x in os.environ.get("C19_EXTRA_EXCLUSIONS", "").split(",") if x]:
+    if _n in RETIRED_EXCLUSIONS:
+        EXCLUSIONS[_n] = RETIRED_EXCLUSIONS[_n]
 ACTIVE_EXCLUSIONS = sorted(EXCLUSIONS)
 
 
@@ -167,6 +185,10 @@ def key_problem(key, detail, extra=""):
     elif cls == "ub":
         m = re.match(r"(\S+) at ([^:]+):(\d+)", what)
         sig = {"kind": "ubsan", "what": m.group(1), "file": m.group(2), "line": int(m.group(3))} if m else {"kind": "ubsan", "what": what}
+        if m:
+            for cname, sites in UB_STATEMENT_CLASSES.items():
+                if key in resolve_ub_sites(sites):
+                    sig["statement_class"] = cname
     else:
         sig = {"kind": "oracle", "what": key}
     return {"kind": sig["kind"], "msg": "%s: %s%s" % (key, detail, extra), "sig": sig}
